@@ -52,6 +52,6 @@ def replay(rec):
         if q.get("k") == "beatsym":
             t = eng.time_at(tc.beat_of(q["b0"]), tc.tag_enum(q["tag0"]))
             print("time_at ->", float(t), "| beat_at ->", eng.beat_at(t, tc.tag_enum(q["tag"])))
-        for st in eng._state_machine:
+        for st in getattr(eng, "_state_machine", []):
             print("  ", st)
     return 1
